@@ -468,6 +468,18 @@ theorem nil_error_callback_unhandled_only_panics (cfg : ObsNil.Cfg) (fault : Nat
     ∀ e ∈ (ObsNil.run cfg fault script).unhandled, ∃ k p, fault k = some p ∧ e = .observer p :=
   ObsNil.unhandled_only_panics cfg fault he script
 
+/-- C07 / C01, `OnNext` under ANY panic plan of its one callback (every invocation: returns | panics): the callback has
+    returned normally from exactly the values of the gated script whose invocation did not panic, in order; a panic neither
+    closes the observer nor loses a later value, and nothing reaches the unhandled-error hook -/
+theorem onNext_under_panics (fault : Nat → Option Err) (script : List (Notif Int)) :
+    (ObsPartial.run .onNext fault script).seen = ObsPartial.pick fault 0 ((gate script).filter ObsPartial.isNextB) ∧
+    (ObsPartial.run .onNext fault script).unhandled = [] :=
+  ⟨ObsPartial.seen_onNext_fault fault script, ObsPartial.unhandled_nil .onNext fault script⟩
+
+-- non-vacuity: the second invocation panics; values 1 and 3 are seen, 2 is not, the stream goes on
+example : (ObsPartial.run .onNext (fun k => if k = 1 then some (.user 5) else none)
+    [.next {} 1, .next {} 2, .next {} 3, .complete {}, .next {} 4]).seen = [.next {} 1, .next {} 3] := by decide
+
 /-- C07, the partial observers: whatever the one user callback does (any panic plan), the unhandled-error hook stays
     silent — the panic is handed to the EMPTY error callback the constructor supplies (it is swallowed: the documented
     "this observer will silent errors") — and it never escapes -/
@@ -478,6 +490,7 @@ theorem partial_observer_unhandled_silent (k : ObsPartial.Ctor) (fault : Nat →
 end Ro.C07
 
 #print axioms Ro.C07.partial_observer_unhandled_silent
+#print axioms Ro.C07.onNext_under_panics
 #print axioms Ro.C07.nil_error_callback_panic_unhandled
 #print axioms Ro.C07.nil_callbacks_dropped_from_script
 #print axioms Ro.C07.nil_error_callback_unhandled_only_panics
